@@ -31,8 +31,8 @@ CHECKS = {
             {"name": "TestC01Wide", "quick": 15, "thorough": 2880, "min_per_shard": 10},
             {"name": "TestC01Mid", "quick": 1500, "thorough": 288000},
             {"name": "TestC01ManyFields", "quick": 150, "thorough": 14400},
-            {"name": "TestC01Huge", "quick": 3, "thorough": 240, "min_per_shard": 3},
-            {"name": "TestC01Sparse", "quick": 10, "thorough": 960, "min_per_shard": 5},
+            {"name": "TestC01Huge", "quick": 3, "thorough": 240, "min_per_shard": 3, "max_shards": 5},
+            {"name": "TestC01Sparse", "quick": 10, "thorough": 960, "min_per_shard": 5, "max_shards": 5},
             {"name": "TestC01Counts", "quick": 40, "thorough": 3840, "min_per_shard": 8},
             {"name": "TestC01Terms", "quick": 100, "thorough": 9600, "min_per_shard": 20},
             {"name": "TestC01Regress", "quick": 0},
@@ -41,9 +41,9 @@ CHECKS = {
     },
     "C02": {
         "level": "exploration",
-        "tests": fam("C02", (2500, 480000), (25, 4800), (40, 1920), regress=False, mid=(1200, 230400), extra=({"name": "TestC02ManyFields", "quick": 60, "thorough": 5760, "min_per_shard": 20}, {"name": "TestC02Huge", "quick": 2, "thorough": 96, "min_per_shard": 2},
+        "tests": fam("C02", (2500, 480000), (25, 4800), (40, 1920), regress=False, mid=(1200, 230400), extra=({"name": "TestC02ManyFields", "quick": 60, "thorough": 5760, "min_per_shard": 20}, {"name": "TestC02Huge", "quick": 2, "thorough": 96, "min_per_shard": 2, "max_shards": 5},
                                                                                               {"name": "TestC02Boundary", "quick": 120, "thorough": 11520, "min_per_shard": 20},
-                                                                                              {"name": "TestC02Sparse", "quick": 6, "thorough": 480, "min_per_shard": 3},
+                                                                                              {"name": "TestC02Sparse", "quick": 6, "thorough": 480, "min_per_shard": 3, "max_shards": 5},
                                                                                               {"name": "TestC02Gaps", "quick": 30, "thorough": 2880, "min_per_shard": 6},
                                                                                               {"name": "TestC02Counts", "quick": 20, "thorough": 1920, "min_per_shard": 5})),
         "assumptions": COMMON_ASSUMPTIONS,
@@ -69,7 +69,7 @@ CHECKS = {
     },
     "C05": {
         "level": "exploration",
-        "tests": [{"name": "TestC05Small", "quick": 8000, "thorough": 1920000}, {"name": "TestC05Wide", "quick": 300, "thorough": 72000}, {"name": "TestC05Huge", "quick": 12, "thorough": 960, "min_per_shard": 6}, {"name": "TestC05Sparse", "quick": 80, "thorough": 5760, "min_per_shard": 6},
+        "tests": [{"name": "TestC05Small", "quick": 8000, "thorough": 1920000}, {"name": "TestC05Wide", "quick": 300, "thorough": 72000}, {"name": "TestC05Huge", "quick": 12, "thorough": 960, "min_per_shard": 6, "max_shards": 5}, {"name": "TestC05Sparse", "quick": 80, "thorough": 5760, "min_per_shard": 6, "max_shards": 5},
                   {"name": "TestC05Regress", "quick": 0}, {"name": "TestC05RegressAdvanceBeyond32", "quick": 0}],
         "assumptions": COMMON_ASSUMPTIONS + ["Advance targets are > the last returned document and non-decreasing (API contract), any uint64 value including targets >= 2^32; ReplaceActual only before the first step, with a subset of ActualBitmap(), on a non-1-hit iterator"],
     },
@@ -95,7 +95,7 @@ CHECKS = {
         "level": "exploration",
         "tests": [{"name": "TestC16Small", "quick": 4000, "thorough": 768000}, {"name": "TestC16Wide", "quick": 30, "thorough": 5760, "min_per_shard": 8}, {"name": "TestC16Mid", "quick": 1000, "thorough": 192000}, {"name": "TestC16ManyFields", "quick": 100, "thorough": 9600, "min_per_shard": 20},
                   {"name": "TestC16Counts", "quick": 60, "thorough": 5760, "min_per_shard": 8},
-                  {"name": "TestC16Huge", "quick": 24, "thorough": 576, "min_per_shard": 6},
+                  {"name": "TestC16Huge", "quick": 24, "thorough": 576, "min_per_shard": 6, "max_shards": 5},
                   {"name": "TestC16Regress", "quick": 0}],
         "assumptions": COMMON_ASSUMPTIONS + ["reported field length equals the sum of the field's term frequencies (the property's stated domain)"],
     },
@@ -112,8 +112,8 @@ CHECKS = {
     },
     "C07": {
         "level": "exploration",
-        "tests": [{"name": "TestC07Small", "quick": 3000, "thorough": 576000}, {"name": "TestC07Wide", "quick": 400, "thorough": 28800}, {"name": "TestC07Mid", "quick": 1000, "thorough": 192000}, {"name": "TestC07Huge", "quick": 6, "thorough": 480, "min_per_shard": 3},
-                  {"name": "TestC07Gaps", "quick": 150, "thorough": 14400, "min_per_shard": 10}, {"name": "TestC07HugeChunk", "quick": 0}],
+        "tests": [{"name": "TestC07Small", "quick": 3000, "thorough": 576000}, {"name": "TestC07Wide", "quick": 400, "thorough": 28800}, {"name": "TestC07Mid", "quick": 1000, "thorough": 192000}, {"name": "TestC07Huge", "quick": 6, "thorough": 480, "min_per_shard": 3, "max_shards": 5},
+                  {"name": "TestC07Gaps", "quick": 150, "thorough": 14400, "min_per_shard": 10}, {"name": "TestC07HugeChunk", "quick": 0, "max_shards": 5}],
         "assumptions": COMMON_ASSUMPTIONS + ["document numbers passed to VisitDocumentValues are < Count()"],
     },
     "C12": {
@@ -129,7 +129,7 @@ CHECKS = {
         "level": "exploration",
         "tests": [{"name": "TestC14", "quick": 600, "thorough": 19200}, {"name": "TestC14", "quick": None, "thorough": 3200, "race": True, "max_shards": 8},
                   {"name": "TestC14Long", "quick": 16, "thorough": 960, "min_per_shard": 8},
-                  {"name": "TestC14Vocab64k", "quick": 0}, {"name": "TestC14Vocab512k", "quick": 0},
+                  {"name": "TestC14Vocab64k", "quick": 0, "max_shards": 5}, {"name": "TestC14Vocab512k", "quick": 0, "max_shards": 5},
                   {"name": "TestC14Process", "quick": 6, "thorough": 96, "min_per_shard": 6}],
         "assumptions": [COMMON_ASSUMPTIONS[0], "whether a build really started from a recycled pool object is sampled through the verif hook just before the build (sync.Pool is per-P, so this is evidence, not control)",
                         "concurrent builders are scheduled by the Go runtime; interleavings are sampled"],
@@ -170,7 +170,7 @@ CHECKS = {
                   {"name": "TestC10Blocks", "quick": 40, "thorough": 7680, "min_per_shard": 20},
                   {"name": "TestC10Wide", "quick": 15, "thorough": 2880, "min_per_shard": 8},
                   {"name": "TestC10Big", "quick": 4, "thorough": 192, "min_per_shard": 4},
-                  {"name": "TestC10Sparse", "quick": 12, "thorough": 960, "min_per_shard": 6},
+                  {"name": "TestC10Sparse", "quick": 12, "thorough": 960, "min_per_shard": 6, "max_shards": 5},
                   {"name": "TestC10ManyFields", "quick": 60, "thorough": 5760, "min_per_shard": 10},
                   {"name": "TestC10Counts", "quick": 30, "thorough": 2880, "min_per_shard": 8},
                   {"name": "TestC10Gaps", "quick": 20, "thorough": 1920, "min_per_shard": 5}],
